@@ -227,6 +227,16 @@ TrBuilt ==
                    !.c19 = @ /\ (var = 0 \/ refi = Len(ref))]
   /\ UNCHANGED <<pvars, xvars>>
 
+\* builder queries (is_empty / num_systems / has_system / contains): functions of the name map
+TrQuery ==
+  /\ Is("query")
+  /\ IF dead \/ Ev.b \notin DOMAIN names THEN UNCHANGED ok
+     ELSE LET e == Ev  nm == names[e.b] IN
+          ok' = [ok EXCEPT !.c18 = @ /\ e.num = Cardinality(DOMAIN nm) /\ (e.empty <=> DOMAIN nm = {})
+                                   /\ \A i \in DOMAIN e.probe : (e.has[i] <=> e.probe[i] \in DOMAIN nm)
+                                                               /\ (e.contains[i] <=> e.probe[i] \in DOMAIN nm)]
+  /\ UNCHANGED <<pvars, xvars>>
+
 \* try_into_sendable: succeeds exactly when there is no thread-local system, and in both
 \* outcomes the plan is the builder's (C12, last sentence)
 TrSendable ==
@@ -529,14 +539,14 @@ TrACall ==
                     [] OTHER -> TRUE]
   /\ UNCHANGED pvars
 
-Known == {"reset", "new", "add", "batch", "barrier", "tl", "nest", "print", "built", "sendable",
+Known == {"reset", "new", "add", "batch", "barrier", "tl", "nest", "print", "built", "sendable", "query",
           "world0", "begin", "fetch", "finish", "ctl", "multi", "panic", "end",
           "presetup", "setupcall", "setup", "disposecall", "dispose", "abegin", "acall"}
 TrSkip ==
   /\ l <= Len(Rec) /\ Ev.ev \notin Known /\ l' = l + 1
   /\ UNCHANGED <<pvars, ok, xvars>>
 
-Next == \/ TrReset \/ TrNew \/ TrAdd \/ TrBarrier \/ TrTl \/ TrNest \/ TrPrint \/ TrBuilt \/ TrSendable
+Next == \/ TrReset \/ TrNew \/ TrAdd \/ TrBarrier \/ TrTl \/ TrNest \/ TrPrint \/ TrBuilt \/ TrSendable \/ TrQuery
         \/ TrWorld0 \/ TrBegin \/ TrFetch \/ TrFinish \/ TrCtl \/ TrMulti \/ TrPanic \/ TrEnd
         \/ TrPreSetup \/ TrSetupCall \/ TrSetup \/ TrDisposeCall \/ TrDispose \/ TrABegin \/ TrACall \/ TrSkip
 Spec == Init /\ [][Next]_vars
